@@ -321,10 +321,17 @@ func (c *Chain) Exec(txs ...*transaction.Transaction) []Result {
 	return out
 }
 
+// OutOfGas counts executed transactions that FAULTed because the system fee the harness put on them ran out. Such a fault is
+// an artefact of the harness's fee, not an observation of the contract: hx marks the case and the check does not judge it.
+var OutOfGas int64
+
 func (c *Chain) result(h util.Uint256, b *block.Block) Result {
 	aer, err := c.BC.GetAppExecResults(h, trigger.Application)
 	require.NoError(c.T, err)
 	require.Equal(c.T, 1, len(aer))
+	if aer[0].VMState != vmstate.Halt && (strings.Contains(aer[0].FaultException, "gas limit is exceeded") || strings.Contains(aer[0].FaultException, "insufficient amount of gas")) {
+		OutOfGas++
+	}
 	r := Result{Halt: aer[0].VMState == vmstate.Halt, Fault: aer[0].FaultException, Stack: aer[0].Stack,
 		Events: aer[0].Events, Height: b.Index, Time: b.Timestamp, Tx: h}
 	return r
